@@ -12,28 +12,50 @@
    statement waits in SQLite's busy handler and is retried; it is never turned into an error by
    the 5 s busy timeout. *)
 From Coq Require Import List Bool Arith.
-From PV Require Import Lib.Lock Model.C02_conc Proofs.C02_conc Proofs.C02_live.
+From PV Require Import Lib.Lock Model.C02_conc Proofs.C02_conc Proofs.C02_live Proofs.C02_schema.
 Import ListNotations.
 
-(* Safety, for ANY well-moded program, ANY database that is not garbage (fresh/empty, existing,
-   wrong layout, any cached rows), ANY number of calls with any parameters (text, initialised or
-   not, update-last-hit, syntax error), ANY schedule of any length:
-   - no call removes the database file while another call has it open (c_viol = false); in fact
-     the file is never removed or replaced (path and generation count unchanged);
-   - no call fails with "database is locked" (EBusy), nor with any other error of the model
-     EXCEPT ESchema.
-   PARTIAL: the absence of ESchema ("no such table/column" when a call reads or writes a table
-   whose layout is not yet the expected one) is NOT proved; it needs the program-specific
-   invariant "a call past its schema check sees the expected layout", on top of the mutual
-   exclusion of writers (C02_lock_mutex).  It is in the executable model and is exercised by the
-   schedule-driven correspondence and by the stress oracle on every run. *)
-Theorem C02_safe_partial (p : prog) (d0 : db) (pars : list params) (sched : list nat) :
+(* C02_safe.  For ANY program that satisfies the two decidable side conditions (side_ok_full = side_ok &&
+   sch_ok, both re-evaluated on the skeleton regenerated from parser.py on every run), ANY database that is
+   not garbage (fresh/empty, existing with any rows of any age, wrong layouts), ANY number of calls with any
+   parameters and ANY schedule of any length - PROVIDED the calls that skip the start-up check (CInit false:
+   the path is already in parse.initialized_dbs of their process) start on a database whose two tables have
+   the expected layout - in every reachable configuration:
+   - no call is in an error state: no "database is locked", no "no such table/column", no constraint
+     error, no missing file, nothing;
+   - no call has removed the database while another had it open; the file is never removed or replaced.
+   Proof: C02_safe_modes's invariant + mutual exclusion of writers (C02_mutex) + soundness of the
+   layout-knowledge typing sch_ok (Proofs/C02_schema.v: per statement the abstract transfer function is
+   sound, a well-typed write never turns a good table into something else, the committed content only
+   changes by the one writer, so every other call's knowledge "table good" stays true).
+   The proviso is exactly what the seeded change C02/m4 broke (C02_skip_check_refuted below). *)
+Theorem C02_safe (p : prog) (d0 : db) (pars : list params) (sched : list nat) :
+  side_ok_full p = true ->
+  (forall par, In par pars -> p_init par = false -> tget TModels d0 = TGood /\ tget TMeta d0 = TGood) ->
+  let c := fst (run sched (init_cfg p (Some d0) pars)) in
+  c_viol c = false /\ c_path c = Some 0 /\ (exists d, c_store c = [Some d]) /\
+  (forall t, In t (c_thrs c) -> forall e, t_st t <> Err e).
+Proof. exact (safe_full p d0 pars sched). Qed.
+Print Assumptions C02_safe.
+
+(* the proviso is necessary: a call that skips the start-up check on a database with a wrong layout fails *)
+Theorem C02_skip_check_refuted :
+  side_ok_full prog_head = true /\
+  exists sched, In (Err ESchema)
+    (map t_st (c_thrs (fst (run sched (init_cfg prog_head (Some (Db TWrong TMissing false [])) [Par 0 false false true 30]))))).
+Proof. split; [vm_compute; reflexivity|]. exists [0;0;0]. vm_compute. auto. Qed.
+Print Assumptions C02_skip_check_refuted.
+
+(* The mode layer alone (side_ok without sch_ok), kept because it needs no proviso on the calls: for ANY
+   well-moded program, any database that is not garbage, any calls, any schedule: no removal, the file is
+   never replaced, and the only error a call can end in is a schema error (excluded by C02_safe). *)
+Theorem C02_safe_modes (p : prog) (d0 : db) (pars : list params) (sched : list nat) :
   side_ok p = true ->
   let c := fst (run sched (init_cfg p (Some d0) pars)) in
   c_viol c = false /\ c_path c = Some 0 /\ length (c_store c) = 1 /\
   (forall t, In t (c_thrs c) -> forall e, t_st t = Err e -> e = ESchema).
 Proof. exact (safe p d0 pars sched). Qed.
-Print Assumptions C02_safe_partial.
+Print Assumptions C02_safe_modes.
 
 (* the skeleton of parse() at /repo HEAD (static copy; the regenerated one is compared with it and
    re-checked on every run) satisfies the side condition, the one before 1904e3c does not *)
@@ -58,7 +80,7 @@ Proof. vm_compute. reflexivity. Qed.
 Print Assumptions C02_head_on_witness.
 
 (* KNOWN, UNREPAIRED (finding corrupt-db-concurrent-recovery): when the database file is garbage
-   the hypothesis "not garbage" of C02_safe_partial is necessary — two calls both see the
+   the hypothesis "not garbage" of C02_safe_modes is necessary — two calls both see the
    corruption, the second one removes the database the first one has just recreated and is
    using; in another order the second os.remove raises FileNotFoundError *)
 Theorem C02_refuted_corrupt :
